@@ -699,6 +699,16 @@ static void *_rsh_thread(void *args)
          */
         while (xpfds[0].fd >= 0 || xpfds[1].fd >= 0) {
 
+            /*  A watchdog signal that arrived while we were not blocked in
+             *   xpoll() is lost: test the command timeout here as well.
+             */
+            if (_thd_command_timeout (a)) {
+                err("%p: %S: command timeout\n", a->host);
+                result = DSH_FAILED;
+                rcmd_signal (a->rcmd, SIGTERM);
+                break;
+            }
+
             /* poll (possibility for SIGALRM) */
             rv = xpoll(xpfds, nfds, -1);
             if (rv == -1) {
